@@ -14,9 +14,16 @@ ASSUMPTIONS = [
 ]
 TRIVIAL_TAGS = []
 
-EXPRS_SCALAR = ["1 + 2", "3 * 4 - 5", "10 / 4", "2 ^ 5", "7 % 3", "math/sin(0.5)", "math/cos(1)", "-(3)", "1 < 2", "true && false", "!true", "5 >= 5"]
-EXPRS_MAT = ["[1 2 3]", "[1 2; 3 4]", "[1; 2; 3]", "1..5", "[1 2 3] + 1", "[1 2; 3 4] * 2", "[1 2 3] > 1", "[1 2; 3 4]'", "[1 2; 3 4] ** [5 6; 7 8]", "1..2..9"]
-EXPRS_OTHER = ['"hello"', "{1,2,3}", "(1, true)", "{a: 1, b: 2}", "| x<f64> y<f64> | 1 2 | 3 4 |", "1/2 + 1/3", "{1,2} ∪ {2,3}"]
+EXPRS_SCALAR = ["1 + 2", "3 * 4 - 5", "10 / 4", "2 ^ 5", "7 % 3", "math/sin(0.5)", "math/cos(1)", "-(3)", "1 < 2", "true && false", "!true", "5 >= 5",
+                "2 ^ 0.5", "1u8 + 2u8", "7 / 2", "math/sqrt(16)", "math/atan2(1, 2)", "stats/sum/row([1 2 3])", "1 == 1", "1 != 2", "-2.5 * -2"]
+EXPRS_MAT = ["[1 2 3]", "[1 2; 3 4]", "[1; 2; 3]", "1..5", "[1 2 3] + 1", "[1 2; 3 4] * 2", "[1 2 3] > 1", "[1 2; 3 4]'", "[1 2; 3 4] ** [5 6; 7 8]", "1..2..9",
+             # every range form (each has its own kernel), concatenations, unary and comparison kernels
+             "1..=5", "1..2..=9", "1..4..=13", "0.5..0.25..=2", "10u8..5u8..=30u8", "[1 2; 3 4] - [4 3; 2 1]", "[1 2 3 4][2..=3]", "[1 2; 3 4][:,1]",
+             "[[1 2]; [3 4]]", "[[1; 2] [3; 4]]", "-[1 2 3]", "[1 2 3] ^ 2", "[1 2 3] % 2", "[1 2 3] == [1 0 3]", "[true false] || [false false]",
+             "![true false]", "[1 2; 3 4; 5 6; 7 8]", "[1 2 3]'", "[1.5 2.5] / 2", "[1u8 2u8 3u8] + 1u8"]
+EXPRS_OTHER = ['"hello"', "{1,2,3}", "(1, true)", "{a: 1, b: 2}", "| x<f64> y<f64> | 1 2 | 3 4 |", "1/2 + 1/3", "{1,2} ∪ {2,3}",
+               "{1,2} ∩ {2,3}", "{1,2} ∖ {2}", "{1,2} Δ {2,3}", "2 ∈ {1,2}", "{1} ⊆ {1,2}", "(1, (2, 3))", '"a" == "a"', "1/2 * 2/3", "1+2i", "(1+2i) * (3-1i)",
+               '["a" "b"]', "{1,2,3} ⊋ {1}"]
 
 
 def program(rng, with_assign):
@@ -50,9 +57,9 @@ def program(rng, with_assign):
         if names and r < 0.75:
             a, ka = rng.choice(names)
             if ka == "s":
-                e = rng.choice(["%s + 1", "%s * %s", "%s - 3", "[%s 2 3]", "%s > 0"])
+                e = rng.choice(["%s + 1", "%s * %s", "%s - 3", "[%s 2 3]", "%s > 0", "%s..2..=20", "1..=%s + 3", "%s..%s + 4", "[%s; %s]", "-%s"])
             else:
-                e = rng.choice(["%s + 1", "%s * 2", "%s[2]", "%s[1..2]", "%s > 2", "stats/sum/row(%s)", "%s'"])
+                e = rng.choice(["%s + 1", "%s * 2", "%s[2]", "%s[1..2]", "%s > 2", "stats/sum/row(%s)", "%s'", "-%s", "%s + %s", "[%s; %s]", "%s[[1 2]]", "%s ^ 2"])
             e = e.replace("%s", a)
             stmts.append("%s := %s" % (name, e)); names.append((name, "m" if ("[" in e and "][" not in e and not e.endswith("]") ) or ka == "m" and "[" not in e else "s"))
         else:
